@@ -64,6 +64,7 @@ class Associate(Block):
         # Loop through the list of the associated variables map and resolve the links
         # find the AST node that that corresponds to the variable with link_name
         for assoc in self.links:
+            assoc.var.link_obj = None  # forget the target of a previous resolution
             # TODO: extract the dimensions component from the link_name
             # re.sub(r'\(.*\)', '', link_name) removes the dimensions component
             # keywords = re.match(r'(.*)\((.*)\)', link_name).groups()
